@@ -227,10 +227,12 @@ static size_t actual_prover(World &W, const ProofSpec &ps)
 	return ps.prover;
 }
 
-static RoleFn prover_role(World &W, const ProofSpec &ps, bool use_outsider)
+static RoleFn prover_role(World &W, const ProofSpec &ps, bool use_outsider, const Statement *pst = NULL)
 {
+	// pst: the prover, too, works on this (false) statement with its honest witness - a prover that commits to
+	// the statement the verifier holds; needed for the non-interactive arguments, whose challenges hash the statement
 	World *Wp = &W; ProofSpec s = ps;
-	return [Wp, s, use_outsider](std::istream &in, std::ostream &out) -> bool
+	return [Wp, s, use_outsider, pst](std::istream &in, std::ostream &out) -> bool
 	{
 		World &W = *Wp;
 		Player &p = W.P[s.prover];
@@ -253,21 +255,23 @@ static RoleFn prover_role(World &W, const ProofSpec &ps, bool use_outsider)
 			case K_CUT: { const MixRec &r = W.mixes[s.idx % W.mixes.size()];
 				p.tmcg->TMCG_ProveStackEquality(r.in, r.out, r.ss, r.cyclic, p.vtmf.get(), in, out); return true; }
 			case K_GROTH: { const MixRec &r = W.mixes[s.idx % W.mixes.size()];
-				if (s.variant == 0) p.tmcg->TMCG_ProveStackEquality_Groth(r.in, r.out, r.ss, p.vtmf.get(), p.vsshe.get(), in, out);
-				else if (s.variant == 1) p.tmcg->TMCG_ProveStackEquality_Groth_noninteractive(r.in, r.out, r.ss, p.vtmf.get(), p.vsshe.get(), out);
+				const TMCG_Stack<VTMF_Card> &pin = pst ? pst->sin : r.in, &pout = pst ? pst->sout : r.out;
+				if (s.variant == 0) p.tmcg->TMCG_ProveStackEquality_Groth(pin, pout, r.ss, p.vtmf.get(), p.vsshe.get(), in, out);
+				else if (s.variant == 1) p.tmcg->TMCG_ProveStackEquality_Groth_noninteractive(pin, pout, r.ss, p.vtmf.get(), p.vsshe.get(), out);
 				else
 				{
 					std::vector<Z> store; store.reserve(6 * r.in.size() + 4);
 					std::vector<std::pair<mpz_ptr, mpz_ptr> > e, E; std::vector<size_t> pi; std::vector<mpz_ptr> R;
 					std::vector<Z> rs(r.in.size());
-					make_pairs(e, r.in, store); make_pairs(E, r.out, store);
+					make_pairs(e, pin, store); make_pairs(E, pout, store);
 					for (size_t i = 0; i < r.in.size(); i++) { pi.push_back(r.ss[i].first); mpz_set(rs[i], r.ss[r.ss[i].first].second.r); R.push_back(rs[i]); }
 					p.vsshe->Prove_interactive(pi, R, e, E, in, out);
 				}
 				return true; }
 			case K_HOOGH: { const MixRec &r = W.mixes[s.idx % W.mixes.size()];
-				if (s.variant == 0) p.tmcg->TMCG_ProveStackEquality_Hoogh(r.in, r.out, r.ss, p.vtmf.get(), p.vrhe.get(), in, out);
-				else p.tmcg->TMCG_ProveStackEquality_Hoogh_noninteractive(r.in, r.out, r.ss, p.vtmf.get(), p.vrhe.get(), out);
+				const TMCG_Stack<VTMF_Card> &pin = pst ? pst->sin : r.in, &pout = pst ? pst->sout : r.out;
+				if (s.variant == 0) p.tmcg->TMCG_ProveStackEquality_Hoogh(pin, pout, r.ss, p.vtmf.get(), p.vrhe.get(), in, out);
+				else p.tmcg->TMCG_ProveStackEquality_Hoogh_noninteractive(pin, pout, r.ss, p.vtmf.get(), p.vrhe.get(), out);
 				return true; }
 		}
 		return false;
@@ -345,6 +349,9 @@ static std::string falsify(World &W, const ProofSpec &ps, Statement &st, int64_t
 			if (n == 0) return "";
 			size_t i = (size_t)pos % n, j = (size_t)(pos / 7 + 1) % n;
 			TMCG_Stack<VTMF_Card> t;
+			// the component-outside-the-group statements pass the arithmetic of the arguments with probability 1/4
+			// when the membership test is missing: give them a fifth of the argument sessions
+			if ((ps.kind == K_GROTH || ps.kind == K_HOOGH) && ((pos >> 9) % 5) == 0) sub = 7 + ((pos >> 8) & 1);
 			switch (sub % 9)
 			{
 				case 7: // a component of an output card replaced by its negative p - x: order 2q, outside the group,
@@ -470,7 +477,12 @@ static void do_proof(World &W, const ProofSpec &ps_in, const Fault &f, bool chun
 		if (prop.empty()) return;
 		bool outsider = (ps.kind == K_DECRYPT && (f.a % 2) == 0);
 		W.res.cnt[std::string("fault.false_statement_") + kind_name(ps.kind)]++;
-		Outcome o = run_session(W, ps.prover, ps.verifier, prover_role(W, ps, outsider), verifier_role(W, ps, &st), RelayFn(), chunked);
+		// arguments: in half of the sessions (always for the statements with a component outside the group) the
+		// prover works on the false statement as well
+		const Statement *pst = NULL;
+		if ((ps.kind == K_GROTH || ps.kind == K_HOOGH) && st.sin.size() == st.sout.size() && st.sin.size() == W.mixes[ps.idx % W.mixes.size()].in.size() && (((f.b >> 12) & 1) || what.find("outside the group") != std::string::npos))
+		{ pst = &st; W.res.cnt["fault.prover_commits_to_false_statement"]++; }
+		Outcome o = run_session(W, ps.prover, ps.verifier, prover_role(W, ps, outsider, pst), verifier_role(W, ps, &st), RelayFn(), chunked);
 		if (ps.kind == K_CUT)
 		{
 			// soundness error exactly 2^-kappa: the honest prover code answers round i correctly iff the
@@ -717,7 +729,7 @@ static Plan cards_generate(uint64_t seed, const Tier &tier)
 	p.cfg["nmax"] = g.chance(1, 6) ? (int64_t)g.range(9, 20) : (int64_t)g.range(2, 8);
 	int nops = (int)g.range(3, tier.thorough ? 14 : 9);
 	bool faults = tier.opt.count("nofaults") == 0;
-	if (g.chance(1, tier.thorough ? 60 : 150) && (p.property == "C03" || p.property == "C02" || p.property == "C12"))
+	if (g.chance(1, tier.thorough ? 60 : 150) && (p.property == "C03" || p.property == "C02" || p.property == "C12" || p.property == "C11"))
 	{
 		// a rare big-stack case: the commitment scheme uses precomputed tables for the first 256
 		// generators only, so stacks around and above that size take another code path
@@ -869,10 +881,15 @@ static RunResult cards_execute(const Plan &plan)
 				std::ostringstream o1; W.P[0].vrhe->PublishGroup(o1); std::istringstream in(o1.str());
 				HooghSchoenmakersSkoricVillegasVRHE r2(in, W.G->fs, W.G->ss); std::ostringstream o2; r2.PublishGroup(o2);
 				if (o1.str() != o2.str() || !r2.CheckGroup()) W.violate("C11", "roundtrip_text_vrhe_group", "rotation-argument parameters change under export/import");
-				PedersenCommitmentScheme com(3 + (size_t)(plan.seed % 5), v->p, v->q, v->k, v->h, W.G->fs, W.G->ss);
+				// (sizes around 256: only the first 256 generators have precomputed tables)
+				static const size_t bign[] = { 255, 256, 257, 300 };
+				size_t cn = ((plan.seed >> 8) % 16 == 0) ? bign[(plan.seed >> 12) % 4] : 3 + (size_t)(plan.seed % 5);
+				PedersenCommitmentScheme com(cn, v->p, v->q, v->k, v->h, W.G->fs, W.G->ss);
 				std::ostringstream c1; com.PublishGroup(c1); std::istringstream cin2(c1.str());
-				PedersenCommitmentScheme com2(3 + (size_t)(plan.seed % 5), cin2, W.G->fs, W.G->ss); std::ostringstream c2; com2.PublishGroup(c2);
-				if (c1.str() != c2.str() || !com2.CheckGroup()) W.violate("C11", "roundtrip_text_com_group", "commitment parameters change under export/import");
+				PedersenCommitmentScheme com2(cn, cin2, W.G->fs, W.G->ss); std::ostringstream c2; com2.PublishGroup(c2);
+				if (c1.str() != c2.str() || !com2.CheckGroup() || com2.g.size() != cn) W.violate("C11", "roundtrip_text_com_group", "commitment parameters (" + std::to_string(cn) + " generators) change under export/import");
+				else if (cin2.peek() != EOF && !(cin2 >> std::ws).eof()) W.violate("C11", "roundtrip_text_com_group", "import of commitment parameters (" + std::to_string(cn) + " generators) left text unread");
+				if (cn > 250) W.res.cnt["probe.com_roundtrip_around_256"]++;
 				NaorPinkasEOTP ot(v->p, v->q, v->g, W.G->fs, W.G->ss);
 				std::ostringstream t1; ot.PublishGroup(t1); std::istringstream tin(t1.str());
 				NaorPinkasEOTP ot2(tin, W.G->fs, W.G->ss); std::ostringstream t2; ot2.PublishGroup(t2);
